@@ -30,6 +30,16 @@ pub fn scenario(prop: &str) -> Scenario {
             s.hp.max_calls = 10;
             s.max_machines = 4;
         }
+        "C04" => {
+            s.mp.ends = 35;
+            s.mp.signals = 25;
+            s.mp.limits = 50;
+            s.mp.counters = 40;
+            s.mp.trans_density = 55;
+            s.hp.max_events = 16;
+            s.hp.max_calls = 8;
+            s.max_machines = 4;
+        }
         _ => {}
     }
     s.min_machines = s.min_machines.min(s.max_machines);
@@ -47,7 +57,7 @@ pub fn gen_case(prop: &str, r: &mut SplitMix64) -> FwCase {
     if !script.is_empty() {
         sc.mp.families = false;
     }
-    if prop == "C01" && script.is_empty() && r.chance(1, 3) {
+    if (prop == "C01" || prop == "C04") && script.is_empty() && r.chance(1, 2) {
         sc.mp.dist = DistMode::Heavy;
     }
     let n = r.range(sc.min_machines, sc.max_machines) as usize;
@@ -73,6 +83,7 @@ pub fn gen_case(prop: &str, r: &mut SplitMix64) -> FwCase {
 pub fn monitor(prop: &str, c: &FwCase, run: &FwRun) -> Option<String> {
     match prop {
         "C01" => mon_c01(c, run),
+        "C04" => mon_c04(c, run),
         _ => None,
     }
 }
@@ -103,4 +114,66 @@ fn mon_c01(c: &FwCase, run: &FwRun) -> Option<String> {
 /// is the case non-trivial for the property (its mechanism fired)?
 pub fn nontrivial(_prop: &str, _c: &FwCase, run: &FwRun) -> bool {
     run.calls.iter().any(|c| !c.actions.is_empty())
+}
+
+use maybenot::action::Action;
+use maybenot::constants::STATE_END;
+use maybenot::TriggerAction;
+
+const DAY_US: u64 = 86_400_000_000;
+
+/// C04: at most one well-formed action per machine per call; END absorbing
+fn mon_c04(c: &FwCase, run: &FwRun) -> Option<String> {
+    let n = c.machines.len();
+    let mut ended = vec![false; n];
+    for (j, rec) in run.calls.iter().enumerate() {
+        let mut seen = vec![false; n];
+        if n == 0 && !rec.actions.is_empty() {
+            return Some(format!("call {}: action returned by a framework without machines", j));
+        }
+        for a in &rec.actions {
+            let (mi, ok_shape, durs): (usize, bool, Vec<u64>) = match a {
+                TriggerAction::Cancel { machine, timer } => {
+                    let mi = machine.into_raw();
+                    (mi, mi < n && c.machines[mi].states.iter().any(|s| matches!(s.action, Some(Action::Cancel { timer: t }) if t == *timer)), vec![])
+                }
+                TriggerAction::SendPadding { timeout, bypass, replace, machine } => {
+                    let mi = machine.into_raw();
+                    (mi, mi < n && c.machines[mi].states.iter().any(|s| matches!(s.action, Some(Action::SendPadding { bypass: b, replace: r, .. }) if b == *bypass && r == *replace)), vec![timeout.0])
+                }
+                TriggerAction::BlockOutgoing { timeout, duration, bypass, replace, machine } => {
+                    let mi = machine.into_raw();
+                    (mi, mi < n && c.machines[mi].states.iter().any(|s| matches!(s.action, Some(Action::BlockOutgoing { bypass: b, replace: r, .. }) if b == *bypass && r == *replace)), vec![timeout.0, duration.0])
+                }
+                TriggerAction::UpdateTimer { duration, replace, machine } => {
+                    let mi = machine.into_raw();
+                    (mi, mi < n && c.machines[mi].states.iter().any(|s| matches!(s.action, Some(Action::UpdateTimer { replace: r, .. }) if r == *replace)), vec![duration.0])
+                }
+            };
+            if mi >= n {
+                return Some(format!("call {}: action for machine {} which does not exist ({} machines)", j, mi, n));
+            }
+            if seen[mi] {
+                return Some(format!("call {}: two actions for machine {}", j, mi));
+            }
+            seen[mi] = true;
+            if !ok_shape {
+                return Some(format!("call {}: action {:?} matches no state of machine {}", j, a, mi));
+            }
+            if durs.iter().any(|d| *d > DAY_US) {
+                return Some(format!("call {}: timeout/duration above 24h in {:?}", j, a));
+            }
+            if ended[mi] {
+                return Some(format!("call {}: action for machine {} which reached its end state in an earlier call", j, mi));
+            }
+        }
+        for (mi, m) in rec.snap.machines.iter().enumerate() {
+            if m.current_state == STATE_END {
+                ended[mi] = true;
+            } else if ended[mi] {
+                return Some(format!("call {}: machine {} left its end state", j, mi));
+            }
+        }
+    }
+    None
 }
